@@ -17,7 +17,7 @@ PROPS = {
         "explanation": "CONV: for every scalar converter behind mpt_data_converter() and the numeral back ends, every case of the type switch is "
                        "analysed with the interval engine in query mode (dest==NULL) and store mode; obligations O1-O6 (reported size, single in-range "
                        "store of the right width, no null dereference, ctype table domain, no store on error, same verdict in both modes). "
-                       "ERANGE: every strto*() result reaches a success return only through a test of errno. UNSIGNEDTEXT: a function that calls the C library's unsigned text parsers (which accept a minus sign and negate modulo 2^N without error) looks at the text for a '-' itself. CONVBOTH: a function with an optional destination that delegates to a converter runs the converter also when the destination is null (trace partition on its null test). ERANGE also demands that the errno test decides alone: from the edge on which errno == ERANGE holds no success return is reachable. Reference-table rules (MUSTCHECK, RESULTCLASS, ARGDEVIANT, INDEXSTEP; verdict for the files in the directories of the anchor files): compared with tools/sa/mustcheck.json, generated from the unchanged tree and committed, no function ignores more results of a callee than it did, every boundary at which a result was tested is still tested, uniform repeated call blocks stay uniform, and no loop gains a way round its per-round index step.",
+                       "ERANGE: every strto*() result reaches a success return only through a test of errno. UNSIGNEDTEXT: a function that calls the C library's unsigned text parsers (which accept a minus sign and negate modulo 2^N without error) looks at the text for a '-' itself. CONVBOTH: a function with an optional destination that delegates to a converter runs the converter also when the destination is null (trace partition on its null test). ERANGE also demands that the errno test decides alone: from the edge on which errno == ERANGE holds no success return is reachable. Reference-table rules (MUSTCHECK, RESULTCLASS, ARGDEVIANT, INDEXSTEP; verdict for the files in the directories of the anchor files): compared with tools/sa/mustcheck.json, generated from the unchanged tree and committed, no function ignores more results of a callee than it did, every boundary at which a result was tested is still tested and every single test still separates the same two sets of results, uniform repeated call blocks stay uniform, and no loop gains a way round its per-round index step.",
         "not_decided": "library semantics of strtoumax('-1'), consumed-length arithmetic",
         "assumptions": ["C/POSIX locale single-byte ctype classes are ASCII", "two's complement, widths from clang TargetInfo for x86_64"],
         "technique": "interval abstract interpretation with guard refinement over the clang CFG, per switch case and destination mode",
@@ -45,7 +45,7 @@ PROPS = {
                        "pairs must agree; kind ranges of enum Types disjoint/ordered; interface table slot i holds id base+i; mpt_type_traits() is "
                        "abstractly evaluated for every id with a row and must reach the table that row lives in. REGRANGE: interval analysis of the four "
                        "registration functions: every id returned/stored lies in [Base,Max] of its kind; capacity constants equal Max-Base+1. "
-                       "MEMCPYSIZE: memcpy(dst,&obj,sizeof X) copies the whole object. LAZYORDER: table scans (duplicate-name checks, lookups) run only after the lazy-initialisation test of that table. COUNTFAIL: no path from a raise of a registry entry counter (`->used++`, static counts) reaches a `return <negative constant>`: a refused registration leaves the registry as it was. Reference-table rules (MUSTCHECK, RESULTCLASS, ARGDEVIANT, INDEXSTEP; verdict for the files in the directories of the anchor files): compared with tools/sa/mustcheck.json, generated from the unchanged tree and committed, no function ignores more results of a callee than it did, every boundary at which a result was tested is still tested, uniform repeated call blocks stay uniform, and no loop gains a way round its per-round index step.",
+                       "MEMCPYSIZE: memcpy(dst,&obj,sizeof X) copies the whole object. LAZYORDER: table scans (duplicate-name checks, lookups) run only after the lazy-initialisation test of that table. COUNTFAIL: no path from a raise of a registry entry counter (`->used++`, static counts) reaches a `return <negative constant>`: a refused registration leaves the registry as it was. Reference-table rules (MUSTCHECK, RESULTCLASS, ARGDEVIANT, INDEXSTEP; verdict for the files in the directories of the anchor files): compared with tools/sa/mustcheck.json, generated from the unchanged tree and committed, no function ignores more results of a callee than it did, every boundary at which a result was tested is still tested and every single test still separates the same two sets of results, uniform repeated call blocks stay uniform, and no loop gains a way round its per-round index step.",
         "not_decided": "uniqueness/stability over registration histories (append-only shape not yet checked), name lookup results, duplicate-name refusal polarity",
         "assumptions": ["x86_64 type widths from clang TargetInfo"],
         "technique": "constant-table extraction from the folded AST + sibling agreement; interval analysis of id-producing sites; abstract evaluation of the id dispatch",
@@ -71,7 +71,7 @@ PROPS = {
                        "tail-inline wrappers of a registered regular pair; the encoder's block limit (`++code == E`) and zero-pair parameters (offset, code range) "
                        "are checked against the decoder's code->(data bytes, zero bytes) table, obtained by abstractly evaluating the decoder's two length "
                        "formulas for every code 1..255; every named framing is handled; the python client's block limit equals the C one and each branch "
-                       "that restarts a block appends the next code byte. CODECPAIR also checks that the byte a tail-inline wrapper moves into the code position lies in the block-code range 1..E of the wrapped codec (interval at the store), and that the decoder reads every code above E as the format says. Reference-table rules (MUSTCHECK, RESULTCLASS, ARGDEVIANT, INDEXSTEP; verdict for the files in the directories of the anchor files): compared with tools/sa/mustcheck.json, generated from the unchanged tree and committed, no function ignores more results of a callee than it did, every boundary at which a result was tested is still tested, uniform repeated call blocks stay uniform, and no loop gains a way round its per-round index step.",
+                       "that restarts a block appends the next code byte. CODECPAIR also checks that the byte a tail-inline wrapper moves into the code position lies in the block-code range 1..E of the wrapped codec (interval at the store), and that the decoder reads every code above E as the format says. Reference-table rules (MUSTCHECK, RESULTCLASS, ARGDEVIANT, INDEXSTEP; verdict for the files in the directories of the anchor files): compared with tools/sa/mustcheck.json, generated from the unchanged tree and committed, no function ignores more results of a callee than it did, every boundary at which a result was tested is still tested and every single test still separates the same two sets of results, uniform repeated call blocks stay uniform, and no loop gains a way round its per-round index step.",
         "not_decided": "encode/decode identity for every message, split and capacity schedule; 'no zero byte inside a frame'; byte-level bounds of the encoders "
                        "(relational over off/code/left); python encoder beyond the two structural facts",
         "assumptions": [],
@@ -99,7 +99,7 @@ PROPS = {
                        "row indices in special cases refer to a row whose setter writes the field the special case reads. CONVDEST: every convert(src, K, &field) with "
                        "constant K targets an object of the C type registered for K. ERRFX: interval analysis with trace partitioning on store sites: no setter path "
                        "stores into the object and then returns an error (unless a later call decides the failure). DEEPCOPY: pointers freed by *_fini are re-duplicated "
-                       "after the whole-struct copy in *_init. ERRPROP: no status variable receives a comparison result. NARROWEDGE: a range test in front of a store into a narrower member does not stop exactly one short of the member's range. DEEPCOPY is path-sensitive: after the whole-struct copy every owned string is duplicated or tested null on every path to the return. FINIPATHS: the layout teardown functions look at every owned string on every path. Reference-table rules (MUSTCHECK, RESULTCLASS, ARGDEVIANT, INDEXSTEP; verdict for the files in the directories of the anchor files): compared with tools/sa/mustcheck.json, generated from the unchanged tree and committed, no function ignores more results of a callee than it did, every boundary at which a result was tested is still tested, uniform repeated call blocks stay uniform, and no loop gains a way round its per-round index step.",
+                       "after the whole-struct copy in *_init. ERRPROP: no status variable receives a comparison result. NARROWEDGE: a range test in front of a store into a narrower member does not stop exactly one short of the member's range. DEEPCOPY is path-sensitive: after the whole-struct copy every owned string is duplicated or tested null on every path to the return. FINIPATHS: the layout teardown functions look at every owned string on every path. Reference-table rules (MUSTCHECK, RESULTCLASS, ARGDEVIANT, INDEXSTEP; verdict for the files in the directories of the anchor files): compared with tools/sa/mustcheck.json, generated from the unchanged tree and committed, no function ignores more results of a callee than it did, every boundary at which a result was tested is still tested and every single test still separates the same two sets of results, uniform repeated call blocks stay uniform, and no loop gains a way round its per-round index step.",
         "not_decided": "value equality of set/get for every accepted value, colour print/parse round trip, unique-prefix matching behaviour, defaults after reset",
         "assumptions": ["'c' conversions only yield printable ASCII, so a 1 byte integer field of either signedness holds them"],
         "technique": "static table extraction (initialisers, offset expressions) + setter branch/field correspondence + interval analysis with trace partitioning for refusal paths",
@@ -133,7 +133,7 @@ PROPS = {
                        "push/unshift moves the logical bytes the operation names (physical offset mapped to logical index through off/max, both segments); COVER the pieces add up "
                        "to the requested length. Callees from the queue files are analysed in the caller's context; mpt_memrev/mpt_memswap (loops: joins with affine-relation "
                        "discovery and widening) are verified under a byte-range contract that call sites owe; the C++ wrappers use the C functions through INV-in/INV-out. "
-                       "ERRFX, DIVZERO, OUTPARAM, STATUSPOLARITY, SPLITCOPY as before (interval analysis with trace partitioning). Reference-table rules (MUSTCHECK, RESULTCLASS, ARGDEVIANT, INDEXSTEP; verdict for the files in the directories of the anchor files): compared with tools/sa/mustcheck.json, generated from the unchanged tree and committed, no function ignores more results of a callee than it did, every boundary at which a result was tested is still tested, uniform repeated call blocks stay uniform, and no loop gains a way round its per-round index step.",
+                       "ERRFX, DIVZERO, OUTPARAM, STATUSPOLARITY, SPLITCOPY as before (interval analysis with trace partitioning). Reference-table rules (MUSTCHECK, RESULTCLASS, ARGDEVIANT, INDEXSTEP; verdict for the files in the directories of the anchor files): compared with tools/sa/mustcheck.json, generated from the unchanged tree and committed, no function ignores more results of a callee than it did, every boundary at which a result was tested is still tested and every single test still separates the same two sets of results, uniform repeated call blocks stay uniform, and no loop gains a way round its per-round index step.",
         "not_decided": "content equivalence of the in-place moves (crop in the middle, align/rotate: which byte lands where), mpt_queue_find's element walk (element-size "
                        "multiplication is not linear), behaviour of callers that break INV from outside the queue files",
         "assumptions": ["callers hand (len, data) buffers of at least len bytes (API contract)", "objects are at most PTRDIFF_MAX bytes", "functions outside the queue files that receive a queue keep INV (listed in the evidence)"],
@@ -162,7 +162,7 @@ PROPS = {
                        "(mpt_message_buf2id and every int function with scalar results in the anchor files). IDWIDTH: the per-width maximum in mpt_command_reserve equals "
                        "2^(8w-1)-1 and the id writer tests the reply marker bit. CONVTYPE: every convert() implementation in the anchor files that answers `type == K` stores a "
                        "pointer to the record type (or a record starting with it) that the consumers of K in the whole program declare. LENCLEARED: in reply senders every "
-                       "path from an accepted transport call to the return clears the armed id length. UNINITCTX: context aggregates passed with a callback are initialised first. IDCAP: mpt_message_buf2id() refuses a header only when the count of significant bytes exceeds sizeof(*iptr) (interval of that count at the error return). CONTAINEROF: pointers to embedded interfaces (reply context, metatype) go back to their object by the offset of a member of that type. Reference-table rules (MUSTCHECK, RESULTCLASS, ARGDEVIANT, INDEXSTEP; verdict for the files in the directories of the anchor files): compared with tools/sa/mustcheck.json, generated from the unchanged tree and committed, no function ignores more results of a callee than it did, every boundary at which a result was tested is still tested, uniform repeated call blocks stay uniform, and no loop gains a way round its per-round index step.",
+                       "path from an accepted transport call to the return clears the armed id length. UNINITCTX: context aggregates passed with a callback are initialised first. IDCAP: mpt_message_buf2id() refuses a header only when the count of significant bytes exceeds sizeof(*iptr) (interval of that count at the error return). CONTAINEROF: pointers to embedded interfaces (reply context, metatype) go back to their object by the offset of a member of that type. Reference-table rules (MUSTCHECK, RESULTCLASS, ARGDEVIANT, INDEXSTEP; verdict for the files in the directories of the anchor files): compared with tools/sa/mustcheck.json, generated from the unchanged tree and committed, no function ignores more results of a callee than it did, every boundary at which a result was tested is still tested and every single test still separates the same two sets of results, uniform repeated call blocks stay uniform, and no loop gains a way round its per-round index step.",
         "not_decided": "at-most-once over arm/reply/defer/release histories with a failing transport; the reader side mpt_message_buf2id beyond its result-parameter discipline",
         "assumptions": [],
         "technique": "interprocedural out-parameter summaries (trace-partitioned intervals), table check, provider/consumer pointer-type agreement, typestate on the send/clear pair",
@@ -191,7 +191,7 @@ PROPS = {
                        "DECWRAP: no loop condition pre-decrements an unsigned count that may be zero. PROGRESS: every loop changes something one of its exit conditions reads. "
                        "LINMSG: relational abstract interpretation of the message functions with the fragment list as an array of `ndat` (or `clen`) iovec records whose elements are objects with an area of iov_len bytes at iov_base: "
                        "every element access lies inside the list, every byte access and memchr/memcpy extent inside its fragment, and a message handed in by pointer satisfies `used` bytes at base / `clen` fragments at cont again on return (MSGINV); "
-                       "first loop iterations are analysed on their own (peeling), unsigned counters that may have wrapped are resolved by the test they sit in. Accesses whose bound is lost at a loop join are listed as undecided. Reference-table rules (MUSTCHECK, RESULTCLASS, ARGDEVIANT, INDEXSTEP; verdict for the files in the directories of the anchor files): compared with tools/sa/mustcheck.json, generated from the unchanged tree and committed, no function ignores more results of a callee than it did, every boundary at which a result was tested is still tested, uniform repeated call blocks stay uniform, and no loop gains a way round its per-round index step.",
+                       "first loop iterations are analysed on their own (peeling), unsigned counters that may have wrapped are resolved by the test they sit in. Accesses whose bound is lost at a loop join are listed as undecided. Reference-table rules (MUSTCHECK, RESULTCLASS, ARGDEVIANT, INDEXSTEP; verdict for the files in the directories of the anchor files): compared with tools/sa/mustcheck.json, generated from the unchanged tree and committed, no function ignores more results of a callee than it did, every boundary at which a result was tested is still tested and every single test still separates the same two sets of results, uniform repeated call blocks stay uniform, and no loop gains a way round its per-round index step.",
         "not_decided": "equality with the flat computation (positions, counts, copied bytes) for every way of cutting the data",
         "assumptions": [],
         "technique": "relational abstract interpretation (linear constraints, fragment lists as arrays of records, loop peeling) + interval analysis at cursor advances + dominator/pairing checks + syntactic loop variants",
@@ -217,7 +217,7 @@ PROPS = {
         "explanation": "CODECPAIR (as for C01; here its decoder side): the decoder's code -> (data bytes, zero bytes) table, obtained by abstract evaluation of its two length formulas for every code 1..255, is the table of the format: block codes 1..E, and for COBS/ZPE every code above E is <code - (E+1)> data bytes and a zero pair, also the codes the bundled encoder never emits. CURSORSYNC: after mpt_message_read() advanced the cursor a local copy of its position is reloaded, not stepped by hand. CURSORPAIR as for C01. RESUMESAVE: the 'need more input / more space' exits of a resumable decoder save the same set of state fields (sibling agreement over the exits of one function: "
                        "a set saved by at least three exits must not be saved partially by another). PROGRESS: every loop of the frame decoders, mpt_message_read and the queue receive/peek functions changes something one of its exit conditions reads, so "
                        "each decoder call terminates for every byte string and segmentation. CURSOR: the source iovec cursor is only advanced after a successful "
-                       "`if (!count--) return` test, i.e. never past the sourcelen elements the caller passed. Reference-table rules (MUSTCHECK, RESULTCLASS, ARGDEVIANT, INDEXSTEP; verdict for the files in the directories of the anchor files): compared with tools/sa/mustcheck.json, generated from the unchanged tree and committed, no function ignores more results of a callee than it did, every boundary at which a result was tested is still tested, uniform repeated call blocks stay uniform, and no loop gains a way round its per-round index step.",
+                       "`if (!count--) return` test, i.e. never past the sourcelen elements the caller passed. Reference-table rules (MUSTCHECK, RESULTCLASS, ARGDEVIANT, INDEXSTEP; verdict for the files in the directories of the anchor files): compared with tools/sa/mustcheck.json, generated from the unchanged tree and committed, no function ignores more results of a callee than it did, every boundary at which a result was tested is still tested and every single test still separates the same two sets of results, uniform repeated call blocks stay uniform, and no loop gains a way round its per-round index step.",
         "not_decided": "byte-level bounds of the in-place decode (dst <= src, proc accounting), honesty of the delivered message, rejection of malformed input; a mutant that only breaks the proc bookkeeping is invisible here",
         "assumptions": [],
         "technique": "syntactic loop variants + dominator pairing of cursor advance and count test",
@@ -244,7 +244,7 @@ PROPS = {
                        "STALE: a buffer pointer loaded from the handle is not used after a call that may replace the handle's buffer. NULLCONTRA: trace partitioning on the "
                        "function's own null tests - no dereference on a path class where the pointer is known null. OBJSIZE: copy calls do not read past a source of known size; "
                        "literal zero lengths with a real source are dead copies. STATUSPOLARITY, LAZYINIT, BOUNDSTALE: status/lazy-init/loop-bound idioms. ERRFX on the buffer and "
-                       "array primitives: no store into the object on a path that then refuses. COWGUARD also covers what a private-making function returns: the buffer mpt_array_reserve() hands to a writing caller is fresh or tested not shared / not immutable on that path. LINBUF additionally owes FINIIN/FINICOVER for the element finalizer calls (see C05). BUFINSTALL: a buffer produced by detach() or an allocation is installed in a handle only where it is non-null. CLONEFREE: no free() of an object that holds a cloned buffer without a release. LINBUF CUTSPEC: a successful mpt_buffer_cut leaves _used0 - len bytes and returns that length. LINBUF covers the entry points of mpt++/array.cpp as well (three listed as not decided). Reference-table rules (MUSTCHECK, RESULTCLASS, ARGDEVIANT, INDEXSTEP; verdict for the files in the directories of the anchor files): compared with tools/sa/mustcheck.json, generated from the unchanged tree and committed, no function ignores more results of a callee than it did, every boundary at which a result was tested is still tested, uniform repeated call blocks stay uniform, and no loop gains a way round its per-round index step.",
+                       "array primitives: no store into the object on a path that then refuses. COWGUARD also covers what a private-making function returns: the buffer mpt_array_reserve() hands to a writing caller is fresh or tested not shared / not immutable on that path. LINBUF additionally owes FINIIN/FINICOVER for the element finalizer calls (see C05). BUFINSTALL: a buffer produced by detach() or an allocation is installed in a handle only where it is non-null. CLONEFREE: no free() of an object that holds a cloned buffer without a release. LINBUF CUTSPEC: a successful mpt_buffer_cut leaves _used0 - len bytes and returns that length. LINBUF covers the entry points of mpt++/array.cpp as well (three listed as not decided). Reference-table rules (MUSTCHECK, RESULTCLASS, ARGDEVIANT, INDEXSTEP; verdict for the files in the directories of the anchor files): compared with tools/sa/mustcheck.json, generated from the unchanged tree and committed, no function ignores more results of a callee than it did, every boundary at which a result was tested is still tested and every single test still separates the same two sets of results, uniform repeated call blocks stay uniform, and no loop gains a way round its per-round index step.",
         "not_decided": "equality with a value-semantics vector after arbitrary histories (contents, zero fill, exact lengths); element walks that multiply by a run-time element size (init/fini loops); the C++ container templates beyond NULLCONTRA/OBJSIZE",
         "assumptions": ["type_traits.size is non-zero for registered traits (DIVZERO is not armed on element-size divisions)"],
         "technique": "relational abstract interpretation (LINBUF: linear constraints, payload regions, inductive buffer invariant, allocation/detach contracts checked on their implementations); CFG typestate with trace partitioning (copy-on-write discipline), staleness after may-reallocate calls, null-test partitioning, copy-size intervals",
@@ -278,7 +278,7 @@ PROPS = {
                        "continuation, restore of the same field, function-local holder handed only to mpt_node_clear, next-of-first-child on unlink, link primitive using V->parent). "
                        "MOVECLEAR: a list taken from another node's children is given up by that node. UAF: trace partitioning on released pointers (free / mpt_node_destroy / unref): "
                        "no access or hand-off after release. ALLOCPOLARITY: for x = g() with g null-on-failure, returns reached with x known non-null are not all failures while "
-                       "success is reachable with x null. NODEGUARD: free(node) in mpt_node_destroy is dominated by the three link tests; mpt_node_clear resets the links before destroy. LINNODE NOREF: a node the function cut loose (parent, next, prev null at return) is no longer the child/next/prev of any node the function looked at (equalities learnt from pointer comparisons are applied to the member that was compared). CHILDLIST: where a built sibling list becomes `A->children`, a loop over its next chain sets `->parent = A`. Reference-table rules (MUSTCHECK, RESULTCLASS, ARGDEVIANT, INDEXSTEP; verdict for the files in the directories of the anchor files): compared with tools/sa/mustcheck.json, generated from the unchanged tree and committed, no function ignores more results of a callee than it did, every boundary at which a result was tested is still tested, uniform repeated call blocks stay uniform, and no loop gains a way round its per-round index step.",
+                       "success is reachable with x null. NODEGUARD: free(node) in mpt_node_destroy is dominated by the three link tests; mpt_node_clear resets the links before destroy. LINNODE NOREF: a node the function cut loose (parent, next, prev null at return) is no longer the child/next/prev of any node the function looked at (equalities learnt from pointer comparisons are applied to the member that was compared). CHILDLIST: where a built sibling list becomes `A->children`, a loop over its next chain sets `->parent = A`. Reference-table rules (MUSTCHECK, RESULTCLASS, ARGDEVIANT, INDEXSTEP; verdict for the files in the directories of the anchor files): compared with tools/sa/mustcheck.json, generated from the unchanged tree and committed, no function ignores more results of a callee than it did, every boundary at which a result was tested is still tested and every single test still separates the same two sets of results, uniform repeated call blocks stay uniform, and no loop gains a way round its per-round index step.",
         "not_decided": "global shape invariants (acyclicity, single reachability) over operation histories; equality of a clone with its source",
         "assumptions": [],
         "technique": "enumerated-idiom check over every children store + CFG reachability/dominators + trace-partitioned typestate (released pointers, null outcomes) + relational abstract interpretation over symbolic node objects (link pairing, no reference to a detached node)",
@@ -302,7 +302,7 @@ PROPS = {
                        "mpt_refcount_raise/lower with a ghost net-change counter as trace partition: the counter is only changed while known non-zero, a kept increment returns "
                        "non-zero, every other exit returns the failure value with no net change (overflow is undone). UNREFIMPL: for every vtable whose addref slot raises a counter, "
                        "the unref slot's teardown calls are dominated by the test of mpt_refcount_lower() and unreachable from its 'references remain' edge. REFREPLACE: a value "
-                       "loaded from a reference slot that is then overwritten is only ever unref'ed; addref results are tested. UAF/NULLCONTRA on the anchor files. LINFINI (see C05): the last handle's release finalizes every element of the used part, so what the elements reference is released exactly then. CLONEFREE: an object that took a reference through mpt_array_clone() is not freed without giving it back. FINIPATHS and CONTAINEROF as for C11 / C19. Reference-table rules (MUSTCHECK, RESULTCLASS, ARGDEVIANT, INDEXSTEP; verdict for the files in the directories of the anchor files): compared with tools/sa/mustcheck.json, generated from the unchanged tree and committed, no function ignores more results of a callee than it did, every boundary at which a result was tested is still tested, uniform repeated call blocks stay uniform, and no loop gains a way round its per-round index step.",
+                       "loaded from a reference slot that is then overwritten is only ever unref'ed; addref results are tested. UAF/NULLCONTRA on the anchor files. LINFINI (see C05): the last handle's release finalizes every element of the used part, so what the elements reference is released exactly then. CLONEFREE: an object that took a reference through mpt_array_clone() is not freed without giving it back. FINIPATHS and CONTAINEROF as for C11 / C19. Reference-table rules (MUSTCHECK, RESULTCLASS, ARGDEVIANT, INDEXSTEP; verdict for the files in the directories of the anchor files): compared with tools/sa/mustcheck.json, generated from the unchanged tree and committed, no function ignores more results of a callee than it did, every boundary at which a result was tested is still tested and every single test still separates the same two sets of results, uniform repeated call blocks stay uniform, and no loop gains a way round its per-round index step.",
         "not_decided": "'destroyed exactly when the last reference is dropped' over histories spanning several functions; C++ reference<T> beyond UAF/REFWRITE",
         "assumptions": [],
         "technique": "who-may-write enumeration, interval analysis with ghost counters (trace partitioning), dominator/reachability check on vtable-resolved unref implementations, relational abstract interpretation of the buffer release (finalizer loop coverage)",
@@ -333,7 +333,7 @@ PROPS = {
         "explanation": "LINIDENT: relational abstract interpretation of identifier.c with INV(id): _val is an inline area of at least _max (and at least 4) bytes, _base a block of _len bytes while _len > _max: every copy stays inside the chosen area, INV holds at return, _base is not read after a write through _val ran over it (OVERLAY). IDENTOVERLAY: struct layout (_base directly follows _val[4]) is read from the record; trace partitioning on 'content possibly longer than 4 bytes was written "
                        "at X->_val': no read of X->_base in such a state until _base is assigned; every read of _base that follows the pointer is under the discriminant "
                        "X->_len > X->_max (conditional-operator arm or dominating branch). NARROW: interval of every value stored to identifier._len (u16) / _max (u8) lies in "
-                       "the field range (null-test partitions + copy relations x = y + c). ALLOCPOLARITY, NULLCONTRA (incl. NULL handed to memcpy/strlen), UAF, OBJSIZE on the anchor files. EXTLONG: a block a function allocates and installs as `_base` goes with `_len > _max` at return. Reference-table rules (MUSTCHECK, RESULTCLASS, ARGDEVIANT, INDEXSTEP; verdict for the files in the directories of the anchor files): compared with tools/sa/mustcheck.json, generated from the unchanged tree and committed, no function ignores more results of a callee than it did, every boundary at which a result was tested is still tested, uniform repeated call blocks stay uniform, and no loop gains a way round its per-round index step.",
+                       "the field range (null-test partitions + copy relations x = y + c). ALLOCPOLARITY, NULLCONTRA (incl. NULL handed to memcpy/strlen), UAF, OBJSIZE on the anchor files. EXTLONG: a block a function allocates and installs as `_base` goes with `_len > _max` at return. Reference-table rules (MUSTCHECK, RESULTCLASS, ARGDEVIANT, INDEXSTEP; verdict for the files in the directories of the anchor files): compared with tools/sa/mustcheck.json, generated from the unchanged tree and committed, no function ignores more results of a callee than it did, every boundary at which a result was tested is still tested and every single test still separates the same two sets of results, uniform repeated call blocks stay uniform, and no loop gains a way round its per-round index step.",
         "not_decided": "read-back equality and comparison results per length; leak freedom on every path",
         "assumptions": [],
         "technique": "relational abstract interpretation (identifier storage); layout facts from the record + typestate (overlay) with trace partitioning + dominator check of the storage discriminant + interval analysis of narrow stores",
@@ -360,7 +360,7 @@ PROPS = {
                        "range offset applied once. DEADFINI: where a function gives 'bound == 0' a meaning of its own, the used length of the loop's buffer is not changed in that "
                        "path class (trace partition on bound == 0). DETACHCOPY: detach implementations copy a still-shared source through mpt_buffer_set (element copy), raw "
                        "memcpy only on the relocating path. USEDNOTSIZE: element counts come from _used. BUFMIX: mutators get lengths of their own buffer. UAF and ALLOCPOLARITY "
-                       "(init callbacks) on the anchor files. LINFINI: relational analysis of the array functions that call an element finalizer: FINIIN (what is handed to `fini` is a complete element of the used part) and FINICOVER (a function that frees the buffer leaves its finalizer loop with less than one element of the used part left). LINIDENT (see C16) is run here too because identifiers are managed elements: EXTLONG (a block installed as `_base` goes with `_len > _max`, else the copy reads as inline and the block is never freed). The full LINBUF analysis (see C04) runs here too (USEDCOVER, CUTSPEC, FINIIN, FINICOVER), with BUFINSTALL, CLONEFREE and FINIPATHS (a teardown function looks at every member it releases on every path). Reference-table rules (MUSTCHECK, RESULTCLASS, ARGDEVIANT, INDEXSTEP; verdict for the files in the directories of the anchor files): compared with tools/sa/mustcheck.json, generated from the unchanged tree and committed, no function ignores more results of a callee than it did, every boundary at which a result was tested is still tested, uniform repeated call blocks stay uniform, and no loop gains a way round its per-round index step.",
+                       "(init callbacks) on the anchor files. LINFINI: relational analysis of the array functions that call an element finalizer: FINIIN (what is handed to `fini` is a complete element of the used part) and FINICOVER (a function that frees the buffer leaves its finalizer loop with less than one element of the used part left). LINIDENT (see C16) is run here too because identifiers are managed elements: EXTLONG (a block installed as `_base` goes with `_len > _max`, else the copy reads as inline and the block is never freed). The full LINBUF analysis (see C04) runs here too (USEDCOVER, CUTSPEC, FINIIN, FINICOVER), with BUFINSTALL, CLONEFREE and FINIPATHS (a teardown function looks at every member it releases on every path). Reference-table rules (MUSTCHECK, RESULTCLASS, ARGDEVIANT, INDEXSTEP; verdict for the files in the directories of the anchor files): compared with tools/sa/mustcheck.json, generated from the unchanged tree and committed, no function ignores more results of a callee than it did, every boundary at which a result was tested is still tested and every single test still separates the same two sets of results, uniform repeated call blocks stay uniform, and no loop gains a way round its per-round index step.",
         "not_decided": "exact-once along arbitrary histories with failing constructors (needs a live-set); SHRINKFINI for arbitrary assignments lowering _used (only the bound==0 form is decided)",
         "assumptions": [],
         "technique": "static table check + loop shape analysis (element address normal form) + trace-partitioned interval analysis + vtable-resolved dominator checks + relational abstract interpretation of the finalizer loops and of the identifier functions",
@@ -394,7 +394,7 @@ PROPS = {
     "C10": {
         "explanation": "LINPATH as for C08 (path_set, path_valid, path_data, path_fini, addchar/delchar, invalidate; add/del/last/next are excluded by name: their indexing is justified by lengths stored in the text). NARROW: every store to path.first (u8) in the anchor files has a value interval inside the field (the 0 = 'search separator' escape counts). USEDNOTSIZE / "
                        "BUFMIX on the config item arrays. CONVDEST on mpt_config_get/convert callers. REFREPLACE in mpt_meta_set. NULLCONTRA, UAF, OBJSIZE on the anchor files. "
-                       "(COWGUARD/STALE on the path_* buffer helpers is part of the C04 check; the config item arrays are unique, never shared, and out of its scope.) SETBEFOREUSE: members of a local path set from the caller's separator/assign parameters are set before the path is handed to a callee that reads them (mpt_path_set). Reference-table rules (MUSTCHECK, RESULTCLASS, ARGDEVIANT, INDEXSTEP; verdict for the files in the directories of the anchor files): compared with tools/sa/mustcheck.json, generated from the unchanged tree and committed, no function ignores more results of a callee than it did, every boundary at which a result was tested is still tested, uniform repeated call blocks stay uniform, and no loop gains a way round its per-round index step.",
+                       "(COWGUARD/STALE on the path_* buffer helpers is part of the C04 check; the config item arrays are unique, never shared, and out of its scope.) SETBEFOREUSE: members of a local path set from the caller's separator/assign parameters are set before the path is handed to a callee that reads them (mpt_path_set). Reference-table rules (MUSTCHECK, RESULTCLASS, ARGDEVIANT, INDEXSTEP; verdict for the files in the directories of the anchor files): compared with tools/sa/mustcheck.json, generated from the unchanged tree and committed, no function ignores more results of a callee than it did, every boundary at which a result was tested is still tested and every single test still separates the same two sets of results, uniform repeated call blocks stay uniform, and no loop gains a way round its per-round index step.",
         "not_decided": "map semantics over assign/remove/query histories; longest-prefix lookup results",
         "assumptions": [],
         "technique": "relational abstract interpretation (path primitives); interval analysis of narrow stores with null-test partitions; table and typestate rules shared with C04/C05/C15",
@@ -422,7 +422,7 @@ PROPS = {
                        "input callback is invoked by exactly the three character readers and no stage replaces the caller's input source, i.e. each character is obtained once and "
                        "there is no push-back path. ERRFX on mpt_parse_node: no store to the target root on a path that returns an error (the temporary tree is merged only after "
                        "err >= 0). CTYPEARG: every <ctype.h> table index lies in [-128,255] (interprocedural return summaries of the readers). NARROW on path.first. "
-                       "UAF/NULLCONTRA/OBJSIZE/BOUNDSTALE on the anchor files. LOCALFINI: the path object the parse loop keeps handing to the format reader and the handler is released (mpt_path_fini) on every return reachable from those calls. Reference-table rules (MUSTCHECK, RESULTCLASS, ARGDEVIANT, INDEXSTEP; verdict for the files in the directories of the anchor files): compared with tools/sa/mustcheck.json, generated from the unchanged tree and committed, no function ignores more results of a callee than it did, every boundary at which a result was tested is still tested, uniform repeated call blocks stay uniform, and no loop gains a way round its per-round index step.",
+                       "UAF/NULLCONTRA/OBJSIZE/BOUNDSTALE on the anchor files. LOCALFINI: the path object the parse loop keeps handing to the format reader and the handler is released (mpt_path_fini) on every return reachable from those calls. Reference-table rules (MUSTCHECK, RESULTCLASS, ARGDEVIANT, INDEXSTEP; verdict for the files in the directories of the anchor files): compared with tools/sa/mustcheck.json, generated from the unchanged tree and committed, no function ignores more results of a callee than it did, every boundary at which a result was tested is still tested and every single test still separates the same two sets of results, uniform repeated call blocks stay uniform, and no loop gains a way round its per-round index step.",
         "not_decided": "absence of every invalid access for hostile input; well-nestedness of the emitted event sequence; leak freedom on all error paths",
         "assumptions": ["parser_input.getc callbacks follow the fgetc() contract: result <= 255 (negative or 0 ends the input)"],
         "technique": "relational abstract interpretation (path primitives); syntactic loop variants + who-may-call check on the input callback + trace-partitioned effect-before-refusal analysis + interval analysis with call summaries",
@@ -449,7 +449,7 @@ PROPS = {
     "C09": {
         "explanation": "NARROW: the 16 bit parser_context.valid length receives mpt_path_valid() (int): stores whose interval leaves [0,65535] truncate long values "
                        "(10 sites, listed as known findings: widening the public struct is not a small repair). OBJSIZE/STATUSPOLARITY: the long-value branch of mpt_meta_new copies "
-                       "len bytes from the text (no dead copy, no over-read of the terminator literal, status tested with < 0). CONVDEST on the string conversions; NULLCONTRA, UAF. Reference-table rules (MUSTCHECK, RESULTCLASS, ARGDEVIANT, INDEXSTEP; verdict for the files in the directories of the anchor files): compared with tools/sa/mustcheck.json, generated from the unchanged tree and committed, no function ignores more results of a callee than it did, every boundary at which a result was tested is still tested, uniform repeated call blocks stay uniform, and no loop gains a way round its per-round index step.",
+                       "len bytes from the text (no dead copy, no over-read of the terminator literal, status tested with < 0). CONVDEST on the string conversions; NULLCONTRA, UAF. Reference-table rules (MUSTCHECK, RESULTCLASS, ARGDEVIANT, INDEXSTEP; verdict for the files in the directories of the anchor files): compared with tools/sa/mustcheck.json, generated from the unchanged tree and committed, no function ignores more results of a callee than it did, every boundary at which a result was tested is still tested and every single test still separates the same two sets of results, uniform repeated call blocks stay uniform, and no loop gains a way round its per-round index step.",
         "not_decided": "tree equality (nesting, order, names, quoting, whitespace invariance): input/output relations of the tokenizer",
         "assumptions": [],
         "technique": "interval analysis of narrow stores and copy lengths; status-polarity and table rules shared with C04/C07",
@@ -475,7 +475,7 @@ PROPS = {
         "explanation": "FINIALL: the teardown loops leave only on the index bound. FORMATARGS: literal log formats get one argument per conversion of the right class. FINALISER: typestate per handler slot (records holding a two-argument function pointer `cmd` next to `arg`), ghost facts notified/empty/fresh carried as trace "
                        "partitions: every store to a slot's handler in the dispatcher files happens after handler(arg, NULL) ran on that path, after a test showed the slot empty, "
                        "on a slot just obtained from mpt_command_empty()/a fresh insert, or in an initialiser; mpt_command_find() returns occupied slots only (an emptied slot can "
-                       "never be invoked); mpt_command_clear() and the traits finaliser notify before dropping slots. IDWIDTH (shared with C12) bounds reserved request ids. USEDNOTSIZE: element counts of the command table come from `_used`, never from the capacity. DEFAULTSET: every way through the branch taken on the handler's Default flag stores the dispatcher's default id before returning. FINIPATHS: mpt_dispatch_fini looks at every member it releases (command table, fallback handler, context) on every path from entry to return. Reference-table rules (MUSTCHECK, RESULTCLASS, ARGDEVIANT, INDEXSTEP; verdict for the files in the directories of the anchor files): compared with tools/sa/mustcheck.json, generated from the unchanged tree and committed, no function ignores more results of a callee than it did, every boundary at which a result was tested is still tested, uniform repeated call blocks stay uniform, and no loop gains a way round its per-round index step.",
+                       "never be invoked); mpt_command_clear() and the traits finaliser notify before dropping slots. IDWIDTH (shared with C12) bounds reserved request ids. USEDNOTSIZE: element counts of the command table come from `_used`, never from the capacity. DEFAULTSET: every way through the branch taken on the handler's Default flag stores the dispatcher's default id before returning. FINIPATHS: mpt_dispatch_fini looks at every member it releases (command table, fallback handler, context) on every path from entry to return. Reference-table rules (MUSTCHECK, RESULTCLASS, ARGDEVIANT, INDEXSTEP; verdict for the files in the directories of the anchor files): compared with tools/sa/mustcheck.json, generated from the unchanged tree and committed, no function ignores more results of a callee than it did, every boundary at which a result was tested is still tested and every single test still separates the same two sets of results, uniform repeated call blocks stay uniform, and no loop gains a way round its per-round index step.",
         "not_decided": "delivery to exactly the registered handler over histories, default-event bookkeeping, uniqueness of reserved ids beyond the width table",
         "assumptions": [],
         "technique": "CFG typestate with trace partitioning over all handler-slot stores + dominator check of the lookup + must-pass-through (reachability) check of the default-id bookkeeping",
@@ -504,7 +504,7 @@ PROPS = {
                        "(negative) and last-element (0); reset() (and same-file callees) assigns every field advance() changes; a clone() that copies fields itself copies every field "
                        "value()/advance() read. STRSCAN: loop conditions that read the character under an advancing char pointer are false at NUL (abstract evaluation of the "
                        "condition with *p = 0). OUTPARAM: at every read of a local result parameter the callee's result, restricted to states where the result variable still "
-                       "holds it (trace partition), excludes the callee's unwritten return class (call-site specialised summaries). ERRPROP on mpt_iterator_consume. FIELDNULL: a pointer member that one method of an object sets to null and at least two methods test for null (the exhausted marker) is not dereferenced or used in pointer arithmetic by a method that has not excluded null on the way (test, or a non-null store that dominates the use). CONTAINEROF: a pointer to an embedded interface is turned into the embedding record only by going back the offset of a member of that type (MPT_baseaddr with the right member; never `ptr + n`). ITERPROTO also demands that every way to `return 0` in advance() passes a store into the iterator object (the end of the sequence is recorded). Reference-table rules (MUSTCHECK, RESULTCLASS, ARGDEVIANT, INDEXSTEP; verdict for the files in the directories of the anchor files): compared with tools/sa/mustcheck.json, generated from the unchanged tree and committed, no function ignores more results of a callee than it did, every boundary at which a result was tested is still tested, uniform repeated call blocks stay uniform, and no loop gains a way round its per-round index step.",
+                       "holds it (trace partition), excludes the callee's unwritten return class (call-site specialised summaries). ERRPROP on mpt_iterator_consume. FIELDNULL: a pointer member that one method of an object sets to null and at least two methods test for null (the exhausted marker) is not dereferenced or used in pointer arithmetic by a method that has not excluded null on the way (test, or a non-null store that dominates the use). CONTAINEROF: a pointer to an embedded interface is turned into the embedding record only by going back the offset of a member of that type (MPT_baseaddr with the right member; never `ptr + n`). ITERPROTO also demands that every way to `return 0` in advance() passes a store into the iterator object (the end of the sequence is recorded). Reference-table rules (MUSTCHECK, RESULTCLASS, ARGDEVIANT, INDEXSTEP; verdict for the files in the directories of the anchor files): compared with tools/sa/mustcheck.json, generated from the unchanged tree and committed, no function ignores more results of a callee than it did, every boundary at which a result was tested is still tested and every single test still separates the same two sets of results, uniform repeated call blocks stay uniform, and no loop gains a way round its per-round index step.",
         "not_decided": "visited values, closed forms, replay equality of the generated numbers",
         "assumptions": [],
         "technique": "vtable resolution from static initialisers + per-slot field read/write sets + interval analysis (query mode, out-parameter summaries) + abstract evaluation at NUL",
@@ -574,6 +574,8 @@ _ADD = {
             " FRAGLOCATE: a loop that reduces an offset by fragment lengths to find the fragment holding it runs while offset >= length. FRAGADOPT: where a continuation fragment becomes the base part, `cont` is stepped past it on every path to the exit."),
     "C19": ([{"run": rules_iter.run_derivedfield, "floor": 2, "use_anchor_files": True}, {"run": rules_iter.run_parkrestore, "floor": 6, "use_anchor_files": True}, {"run": rules_table.run_typemap, "floor": 120, "scope": "anchors"}],
             " DERIVEDFIELD: a pointer member that is computed from an integer member of the same object and read by a function that does not compute it is stored again (or recomputed by a callee handed the object) in every function that stores the integer member. PARKRESTORE: typestate with trace partitioning over the parked-byte marker of the text iterator: the marker is dropped only after the parked byte was put back or the marker was tested null, and no callee is handed the text through the marker while a byte is parked. TYPEMAP (see C06) for the id -> size switch of mpt_iterator_consume."),
+    "C03": ([{"run": rules_lin.run_linbounds, "floor": 95, "ctx": {"files_of": "C13"}}],
+            " LINBOUNDS over the queue files (see C13): the decoders' queue glue (mpt_queue_recv / mpt_queue_shift) relies on mpt_qpre, mpt_queue_crop and mpt_queue_data keeping the queue invariant and changing the stored length by exactly the requested amount (LENSPEC)."),
     "C13": ([], " LENSPEC (LINBOUNDS exits): a successful pop / shift / crop lowers the stored length by exactly the requested amount, push / unshift raise it by it, get leaves it."),
     "C07": ([], " UNSIGNEDTEXT also demands that the pointer whose character is compared with '-' is not moved between that test and the parser call."),
     "C20": ([{"run": rules_layout.run_resetsame, "floor": 20}], " For the setters and their helpers a failure is excused as 'discovered after the store' only by a call that was handed the object or that allocates. RESETSAME: in the branch a setter takes for one property name the members stored on the no-source (reset) path overlap the members the value path writes or hands to its parser. ERRFX now also covers the helpers a setter hands a pointer into its object to (colour, attribute, string and position parsers): calls of writers whose result is discarded count as stores, and calls that only inspect their arguments (strlen, strncasecmp, isspace ..) do not excuse a store made before them."),
